@@ -592,39 +592,54 @@ func writtenToNonOwner(res *ChurnResult, node uint64, key string, hash uint64) (
 	if res.StoreEventsFor == nil {
 		return 0, 0, false
 	}
-	present := false
-	var origin StoreEvent
-	for _, e := range res.StoreEventsFor(key) {
-		if e.Node != node {
-			continue
-		}
-		switch e.Op {
-		case "RemoveKeys":
-			present = false
-		case "Put", "Append", "Import":
-			if !present && strings.HasPrefix(e.Res, "ok") {
-				present = true
-				origin = e
+	evs := res.StoreEventsFor(key)
+	// originOf: the event that created the copy node holds as of time upto
+	originOf := func(node uint64, upto int64) (StoreEvent, bool) {
+		present := false
+		var origin StoreEvent
+		for _, e := range evs {
+			if e.Node != node || e.T > upto {
+				continue
+			}
+			switch e.Op {
+			case "RemoveKeys":
+				present = false
+			case "Put", "Append", "Import":
+				if !present && strings.HasPrefix(e.Res, "ok") {
+					present = true
+					origin = e
+				}
 			}
 		}
+		return origin, present
 	}
-	if !present || origin.Op == "Import" {
-		return 0, 0, false
-	}
-	// definite members at the time of the write
-	ids := []uint64{node}
-	for id, sp := range res.Timeline {
-		if id == node || sp.Joined == 0 || sp.Joined > origin.T {
-			continue
+	cur, upto := node, int64(1)<<62
+	for depth := 0; depth < 6; depth++ {
+		origin, present := originOf(cur, upto)
+		if !present {
+			return 0, 0, false
 		}
-		if sp.LeaveStart != 0 && sp.LeaveStart <= origin.T {
-			continue
+		if origin.Op != "Import" {
+			// a client write: was another definite member the owner then?
+			if o := definiteOwner(res, cur, origin.T, hash); o != cur {
+				return o, origin.T, true
+			}
+			return 0, 0, false
 		}
-		ids = append(ids, id)
-	}
-	sort.Slice(ids, func(i, j int) bool { return ids[i] < ids[j] })
-	if o := OwnerOf(ids, hash); o != node {
-		return o, origin.T, true
+		// the copy was handed over by a leaving/transferring node: follow it back to the node that
+		// exported it (the last Export of the key by another node before this Import) and ask how
+		// THAT node came to hold it — a misplaced write travels with its holder's hand-overs
+		var src *StoreEvent
+		for i := range evs {
+			e := &evs[i]
+			if e.Op == "Export" && e.Node != cur && e.T <= origin.T && strings.HasPrefix(e.Res, "ok") {
+				src = e
+			}
+		}
+		if src == nil {
+			return 0, 0, false
+		}
+		cur, upto = src.Node, src.T
 	}
 	return 0, 0, false
 }
